@@ -28,11 +28,19 @@ import c09_translate  # noqa: E402
 
 ID = "C09"
 DESIGN_REF = "DESIGN.md section 5, C09"
-LEAN_TARGETS = ["PV.C09.Thm"]
+LEAN_TARGETS = ["PV.C09.Thm", "PV.Prog.Thm"]
 DRIVER = "drv_c09"
 HARNESS = {"bin": "pvh_c09", "features": "default"}
 EXTRA_HARNESS = [{"bin": "pvh_c09", "features": "all-ranges"}, {"bin": "pvh_c09", "features": "full-lexer"}]
 THEOREMS = [
+    # modes as views of one grammar, on the Lean reference parser PV.Prog.parseProgram (tied to the real parser by C01's prog-*
+    # streams): expression mode = the expression statement of module mode (on one-expression lines, exceptions witnessed),
+    # interactive body = module body
+    "PV.Prog.parse_expr_stmt_agree",
+    "PV.Prog.interactive_module_agree",
+    "PV.Prog.yield_is_statement_only",
+    "PV.Prog.semicolon_is_statement_only",
+    "PV.Prog.leading_newline_is_statement_only",
     "PV.C09.entry_points_agree",
     "PV.C09.typed_parsers_wf",
     "PV.C09.typed_parsers_cover",
